@@ -86,6 +86,9 @@ var targets = []string{
 	"sortedMimes",
 	"Response.EntityWriter",
 	"Container.addHandler",
+	"WebService.compilePathExpression",
+	"WebService.Path",
+	"Container.Add",
 	"WebService.RemoveRoute",
 	"RouterJSR311.extractParams",
 	"RouterJSR311.ExtractParameters",
@@ -1242,6 +1245,36 @@ func (t *tr) assignStmt(ind int, x *ast.AssignStmt) {
 		}
 		t.assign(ind, l, val)
 	}
+	if len(x.Rhs) == 1 {
+		if c, ok := x.Rhs[0].(*ast.CallExpr); ok {
+			if res, ok := t.mutCall(ind, c); ok {
+				if len(res) != len(x.Lhs) {
+					fail("assignment %s", src(x))
+				}
+				for i, l := range x.Lhs {
+					// a field of a struct parameter on the left: c.F = …
+					if sel, isSel := l.(*ast.SelectorExpr); isSel {
+						if id, isId := sel.X.(*ast.Ident); isId {
+							if pt, isP := t.paramStruct[id.Name]; isP {
+								if st, ptr := structName(pt); st != "" && isGenStruct[st] {
+									t.changed(id.Name)
+									useField(st, sel.Sel.Name)
+									if ptr {
+										t.line(ind, "%s := some { (← deref %s) with %s := %s }", mangle(id.Name), mangle(id.Name), mangle(sel.Sel.Name), res[i])
+									} else {
+										t.line(ind, "%s := { %s with %s := %s }", mangle(id.Name), mangle(id.Name), mangle(sel.Sel.Name), res[i])
+									}
+									continue
+								}
+							}
+						}
+					}
+					bind(l, res[i])
+				}
+				return
+			}
+		}
+	}
 	if len(x.Lhs) == len(x.Rhs) {
 		if len(x.Lhs) == 1 {
 			if x.Tok == token.DEFINE {
@@ -1640,8 +1673,13 @@ func translate(key string) (text string, why string) {
 		}
 	}
 	for _, p := range fd.Type.Params.List {
-		if _, isEff := effectTypes[src(p.Type)]; isEff {
-			for _, n := range p.Names {
+		_, isEff := effectTypes[src(p.Type)]
+		for _, n := range p.Names {
+			listed := false
+			for _, m := range mutates[key] {
+				listed = listed || m == n.Name
+			}
+			if isEff || (listed && !assigned(fd.Body, n.Name)) {
 				t.line(2, "let mut %s := %s", mangle(n.Name), mangle(n.Name))
 			}
 		}
